@@ -199,6 +199,19 @@ struct Case {
 /// to run the check against a worktree that has the patch).
 const SELECT_WAITS_DEFAULT: bool = true;
 
+/// Is the repair notes/C06-fixes/01 (`release_dead_roots`: a dead non-persistent process gives up its mailbox, select
+/// state and await maps; `notify_message` drops what can never be received) present in the runtime under test?
+/// Detected from the source the harness is linked against; `QVERIF_RELEASE_DEAD=0|1` overrides.
+fn release_dead() -> bool {
+    match std::env::var("QVERIF_RELEASE_DEAD").ok().as_deref() {
+        Some("1") => true,
+        Some("0") => false,
+        _ => std::fs::read_to_string(format!("{}/quiver-core/src/executor.rs", qverif::repo()))
+            .map(|t| t.contains("fn release_dead_roots"))
+            .unwrap_or(false),
+    }
+}
+
 fn select_waits() -> bool {
     match std::env::var("QVERIF_SELECT_WAITS").ok().as_deref() {
         Some("1") => true,
@@ -1447,6 +1460,7 @@ fn run_case(case: &Case, model: &mut Model, log_events: bool) -> Outcome {
     let pp = sc.p_pid();
     let pw = pp % n;
     model.ask(if select_waits() { "(variant on)" } else { "(variant off)" });
+    model.ask(if release_dead() { "(release on)" } else { "(release off)" });
     let a = model.ask(&sc.sites_sx());
     let mut out = Outcome::default();
     if a != "ok" {
